@@ -36,8 +36,13 @@ def gen_setup(rng, with_keyed):
         setup.append("create table k1(id int primary key, v int)")
         ids = rng.sample(range(0, 12), rng.choice([0, 1, 3, 5, 7]))
         rng.shuffle(ids)
-        if ids:
-            setup.append("insert into k1 values %s" % ", ".join("(%d, %s)" % (i, lit(rng, "int")) for i in ids))
+        # several INSERT statements = several row-sets with interleaving key ranges on the disk
+        # engine (the scan must merge them for the planner's order assumptions to hold)
+        nparts = rng.choice([1, 1, 2, 3, 4]) if len(ids) >= 3 else 1
+        for part in range(nparts):
+            chunk = ids[part::nparts]
+            if chunk:
+                setup.append("insert into k1 values %s" % ", ".join("(%d, %s)" % (i, lit(rng, "int")) for i in chunk))
     return setup
 
 
